@@ -292,6 +292,6 @@ def replay(doc):
 
 
 def jobs(tier, seed):
-    n, shards = (6000, 8) if tier == "quick" else (120000, 16)
+    n, shards = (6000, 8) if tier == "quick" else (300000, 16)
     return [{"name": "hist-%d" % k, "kind": "hist", "n": n // shards, "seed": seed * 1000 + k,
              "shrink": 400 if tier == "quick" else 2000} for k in range(shards)]
